@@ -7,7 +7,7 @@
 use futures_util::{SinkExt, StreamExt};
 use repe::constants::{BodyFormat, ErrorCode};
 use repe::server::HandlerErased;
-use repe::websocket_server::{proxy_connection_with_limits, ConnectionError, WebSocketServer};
+use repe::websocket_server::{proxy_connection, proxy_connection_with_limits, ConnectionError, WebSocketServer};
 use repe::{CallContext, Execution, Message, NotifyBody, PeerRegistry, RepeError, Router, WebSocketClient, WebSocketLimits};
 use repe_verif_harness::frames::RawFrame;
 use repe_verif_harness::*;
@@ -223,29 +223,54 @@ async fn start_upstream() -> SocketAddr {
     a
 }
 
-async fn make_world(limit: Option<usize>, upstream: SocketAddr) -> Result<World, String> {
-    let limits = WebSocketLimits::default().with_assumed_peer_frame_limit(limit);
+async fn make_world(cfg: &str, upstream: SocketAddr) -> Result<World, String> {
+    let given = cfg_limits(cfg);
+    let limit = cfg_effective(cfg).flatten();
+    // an embedder-driven accept loop (`into_shared` + `accept` + `serve_connection`) for some worlds
+    let shared_path = cfg == "4096" || cfg == "u";
     // --- real WebSocket server
     let reports: Reports = Arc::new(Mutex::new(Vec::new()));
     let registry = PeerRegistry::new();
+    let cfg_mismatch = Arc::new(std::sync::atomic::AtomicBool::new(false));
     // The server runs on a current-thread runtime of its own: the connection's reader (and inline
     // handlers) and its writer interleave only at await points, so several messages are regularly
     // queued at once when the writer gets to run.
     let srv_addr = {
         let rep = reports.clone();
         let registry = registry.clone();
+        let cfg_mismatch = cfg_mismatch.clone();
         let (tx, rx) = tokio::sync::oneshot::channel();
         std::thread::spawn(move || {
             let rt = tokio::runtime::Builder::new_current_thread().enable_all().build().unwrap();
             rt.block_on(async move {
                 let l = TcpListener::bind("127.0.0.1:0").await.unwrap();
                 let _ = tx.send(l.local_addr().unwrap());
-                let server = WebSocketServer::new(ws_router()).with_limits(limits).with_peer_registry(registry).on_error(move |e| {
+                let mut server = WebSocketServer::new(ws_router());
+                if let Some(limits) = given {
+                    server = server.with_limits(limits);
+                }
+                let server = server.with_peer_registry(registry).on_error(move |e| {
                     if let ConnectionError::OutboundTooLarge { method, size, limit } = e {
                         rep.lock().unwrap().push((method.clone(), *size, *limit));
                     }
                 });
-                let _ = server.serve_listener(l, "/repe").await;
+                if shared_path {
+                    let shared = server.into_shared();
+                    if shared.limits() != given.unwrap_or_default() {
+                        cfg_mismatch.store(true, std::sync::atomic::Ordering::SeqCst);
+                    }
+                    loop {
+                        let Ok((stream, _)) = l.accept().await else { break };
+                        let shared = shared.clone();
+                        tokio::spawn(async move {
+                            if let Ok(ws) = shared.accept(stream, "/repe").await {
+                                let _ = shared.serve_connection(ws).await;
+                            }
+                        });
+                    }
+                } else {
+                    let _ = server.serve_listener(l, "/repe").await;
+                }
             });
         });
         rx.await.map_err(|_| "server thread did not start".to_string())?
@@ -259,7 +284,10 @@ async fn make_world(limit: Option<usize>, upstream: SocketAddr) -> Result<World,
             tokio::spawn(async move {
                 let Ok(ws) = tokio_tungstenite::accept_async_with_config(stream, Some(unlimited_cfg())).await else { return };
                 let Ok(up) = repe::AsyncClient::connect(upstream).await else { return };
-                let _ = proxy_connection_with_limits(ws, up, limits).await;
+                let _ = match given {
+                    Some(limits) => proxy_connection_with_limits(ws, up, limits).await,
+                    None => proxy_connection(ws, up).await,
+                };
             });
         }
     });
@@ -278,7 +306,10 @@ async fn make_world(limit: Option<usize>, upstream: SocketAddr) -> Result<World,
                     while let Some(Ok(m)) = ws.next().await {
                         if let WsMsg::Binary(b) = m {
                             let reply = RawFrame::parse_prefix(&b).filter(|(f, n)| *n == b.len() && f.h.notify == 0).map(|(f, _)| {
-                                let mut r = RawFrame::request(f.h.id, false, 1, b"", 2, b"\"r\"");
+                                // the answer to a follow-up `/ping` is larger than the small assumed limits:
+                                // what the client assumes about its peer does not limit what it reads
+                                let big: Vec<u8> = if f.query == b"/ping" { let mut b = vec![b'"']; b.extend(std::iter::repeat(b'z').take(70_000)); b.push(b'"'); b } else { b"\"r\"".to_vec() };
+                                let mut r = RawFrame::request(f.h.id, false, 1, b"", 2, &big);
                                 r.h.notify = 0;
                                 r
                             });
@@ -294,10 +325,22 @@ async fn make_world(limit: Option<usize>, upstream: SocketAddr) -> Result<World,
             }
         });
     }
-    let client = tokio::time::timeout(WATCHDOG, WebSocketClient::connect_with_limits(&format!("ws://{}/repe", peer_addr), limits))
+    let url = format!("ws://{}/repe", peer_addr);
+    let client = tokio::time::timeout(WATCHDOG, async {
+        match given {
+            Some(limits) => WebSocketClient::connect_with_limits(&url, limits).await,
+            None => WebSocketClient::connect(&url).await,
+        }
+    })
         .await
         .map_err(|_| "client-connect-timeout".to_string())?
         .map_err(|e| format!("client-connect: {e}"))?;
+    if client.limits() != given.unwrap_or_default() {
+        return Err("WebSocketClient::limits() is not the configured value".into());
+    }
+    if cfg_mismatch.load(std::sync::atomic::Ordering::SeqCst) {
+        return Err("SharedWebSocketServer::limits() is not the configured value".into());
+    }
     let mut w = World { limit, srv: RawConn::connect(srv_addr).await?, proxy: RawConn::connect(proxy_addr).await?, registry, reports, client, seen, next_id: 1 << 40 };
     // one round trip on each connection: the server's connect hooks (registry insert) have run
     let id = w.fresh();
@@ -323,7 +366,8 @@ impl World {
 struct Spec {
     idx: String,
     kind: String, // frame paths or "call"/"notify"
-    #[allow(dead_code)]
+    /// the limits expression of the world (see `cfg_limits`) and the assumption it stands for
+    cfg: String,
     limit: Option<usize>,
     id: u64,
     qlen: usize,
@@ -341,6 +385,27 @@ fn route_of(path: &str) -> &'static str {
         "pushoff" => "/push_off",
         "pushn" => "/pushn",
         _ => "",
+    }
+}
+
+/// How a world's limits are written down: a number N = `default().with_assumed_peer_frame_limit(Some(N))`,
+/// `-` = `default().with_assumed_peer_frame_limit(None)`, `u` = `WebSocketLimits::unlimited()`,
+/// `d` = no limits given at all (`WebSocketServer::new`, `proxy_connection`, `WebSocketClient::connect`).
+fn cfg_limits(cfg: &str) -> Option<WebSocketLimits> {
+    match cfg {
+        "d" => None,
+        "u" => Some(WebSocketLimits::unlimited()),
+        "-" => Some(WebSocketLimits::default().with_assumed_peer_frame_limit(None)),
+        n => Some(WebSocketLimits::default().with_assumed_peer_frame_limit(Some(n.parse().expect("limit")))),
+    }
+}
+
+/// The assumption the endpoints must then be working with (the documented default for `d`).
+fn cfg_effective(cfg: &str) -> Option<Option<usize>> {
+    match cfg {
+        "d" => Some(Some(repe::DEFAULT_MAX_FRAME_SIZE)),
+        "u" | "-" => Some(None),
+        n => n.parse::<usize>().ok().map(Some),
     }
 }
 
@@ -442,7 +507,10 @@ async fn run_frame(w: &mut World, s: &Spec) -> CaseResult {
         let pid = w.fresh();
         let conn = if conn_is_proxy { &mut w.proxy } else { &mut w.srv };
         let r: Result<(), String> = async {
-            conn.send(&RawFrame::request(pid, false, 1, b"/ping", 2, b"null")).await?;
+            // the assumed *peer* limit says nothing about what this endpoint accepts: the follow-up
+            // request is larger than it (when that is cheap)
+            let big_in: Vec<u8> = match s.limit { Some(l) if l <= 65536 => { let mut b = vec![b'"']; b.extend(std::iter::repeat(b'y').take(l + 64)); b.push(b'"'); b } _ => b"null".to_vec() };
+            conn.send(&RawFrame::request(pid, false, 1, b"/ping", 2, &big_in)).await?;
             let (others, pong) = if is_notify { recv_answer(conn, pid).await? } else { conn.recv_until(pid).await? };
             delivered.extend(others);
             if pong.h.id != pid || pong.h.ec != 0 || pong.body != b"\"pong\"" {
@@ -495,7 +563,7 @@ async fn run_frame(w: &mut World, s: &Spec) -> CaseResult {
         }
     };
     let rep = if reports.is_empty() || conn_is_proxy { " ; report -".to_string() } else { reports.iter().map(|(_, s, l)| format!(" ; report {} {}", s, l)).collect::<String>() };
-    let op = format!("frame {} {} {} {} {} {} {} {}", s.idx, path, lim_str(s.limit), is_notify as u8, if is_notify { 0 } else { s.id }, s.qlen, s.blen, rlen);
+    let op = format!("frame {} {} {} {} {} {} {} {}", s.idx, path, s.cfg, is_notify as u8, if is_notify { 0 } else { s.id }, s.qlen, s.blen, rlen);
     let obs = format!("{} {}{}", s.idx, what, rep);
     // ---- direct oracles -----------------------------------------------------------------------
     if let Some(l) = s.limit {
@@ -589,7 +657,7 @@ async fn run_client(w: &mut World, s: &Spec) -> CaseResult {
         Err(()) => "hung".to_string(),
     };
     let wire = if mine.is_empty() { "-".to_string() } else { mine.iter().map(|b| b.len().to_string()).collect::<Vec<_>>().join(",") };
-    let op = format!("client {} {} {} {} {} {}", s.idx, kind, lim_str(s.limit), s.id, s.qlen, s.blen);
+    let op = format!("client {} {} {} {} {} {}", s.idx, kind, s.cfg, s.id, s.qlen, s.blen);
     let obs = format!("{} {} wire {}", s.idx, class, wire);
     // ---- direct oracles
     if let Some(l) = s.limit {
@@ -635,21 +703,34 @@ async fn run_client(w: &mut World, s: &Spec) -> CaseResult {
 // generator
 // ------------------------------------------------------------------------------------------------
 fn gen_specs(rng: &mut Rng, thorough: bool) -> Vec<Spec> {
-    let mut limits: Vec<Option<usize>> = vec![Some(1024), Some(4096), Some(65536), Some(1 << 20), None];
+    let mut cfgs: Vec<String> = ["1024", "4096", "65536", "1048576", "-", "u", "d"].iter().map(|s| s.to_string()).collect();
     if thorough {
-        limits.push(Some(16 << 20));
-        limits.push(Some(300));
-        limits.push(Some(100_000));
+        cfgs.extend(["16777216", "300", "100000"].iter().map(|s| s.to_string()));
     }
+    let limits: Vec<(String, Option<usize>)> = cfgs.into_iter().map(|c| { let e = cfg_effective(&c).unwrap(); (c, e) }).collect();
     let nrand = if thorough { 14 } else { 4 };
     let mut out = Vec::new();
     let mut id = 1000u64;
-    for (li, lim) in limits.iter().enumerate() {
+    for (li, (cfg, lim)) in limits.iter().enumerate() {
         let mut specs = Vec::new();
-        let kinds: Vec<&str> = FRAME_PATHS.iter().cloned().chain(["call", "notify"]).collect();
+        let mut kinds: Vec<&str> = FRAME_PATHS.iter().cloned().chain(["call", "notify"]).collect();
+        // endpoints built without any limits guard at 16 MiB: a few frames right at that boundary per path
+        let heavy = cfg == "d";
+        if heavy && !thorough {
+            kinds = vec!["inline", "off", "bcast", "proxy", "call", "notify"];
+        }
         for k in kinds {
             let mut totals: Vec<usize> = Vec::new();
             match lim {
+                Some(l) if heavy => {
+                    totals.push(*l);
+                    totals.push(l + 1);
+                    totals.push(rng.range(60, 4096) as usize);
+                    if thorough {
+                        totals.push(l - 1);
+                        totals.push(l + 2);
+                    }
+                }
                 Some(l) => {
                     for d in 0..5 {
                         totals.push(l + d - 2);
@@ -665,7 +746,7 @@ fn gen_specs(rng: &mut Rng, thorough: bool) -> Vec<Spec> {
                     }
                 }
                 None => {
-                    for _ in 0..(nrand + 3) {
+                    for _ in 0..(if cfg == "u" { 3 } else { nrand + 3 }) {
                         totals.push(match rng.below(4) {
                             0 => rng.range(60, 300) as usize,
                             1 => rng.range(300, 70_000) as usize,
@@ -673,7 +754,7 @@ fn gen_specs(rng: &mut Rng, thorough: bool) -> Vec<Spec> {
                             _ => *rng.pick(&[1024usize, 4096, 65536, 65537, (1 << 20) + 1]),
                         });
                     }
-                    if thorough {
+                    if thorough && cfg == "-" {
                         totals.push((16 << 20) + 1 + rng.below(1000) as usize);
                     }
                 }
@@ -701,7 +782,7 @@ fn gen_specs(rng: &mut Rng, thorough: bool) -> Vec<Spec> {
                     continue;
                 }
                 id += 1;
-                specs.push(Spec { idx: String::new(), kind: k.to_string(), limit: *lim, id, qlen, blen: t - 48 - qlen });
+                specs.push(Spec { idx: String::new(), kind: k.to_string(), cfg: cfg.clone(), limit: *lim, id, qlen, blen: t - 48 - qlen });
             }
         }
         rng.shuffle(&mut specs);
@@ -715,13 +796,13 @@ fn gen_specs(rng: &mut Rng, thorough: bool) -> Vec<Spec> {
 
 fn parse_spec(line: &str) -> Option<Spec> {
     let w = words(line);
-    let lim = |s: &str| if s == "-" { Some(None) } else { s.parse::<usize>().ok().map(Some) };
+    let lim = |s: &str| cfg_effective(s);
     match w.as_slice() {
         ["frame", idx, path, l, _notify, id, q, b, _rlen] if FRAME_PATHS.contains(path) => {
-            Some(Spec { idx: idx.to_string(), kind: path.to_string(), limit: lim(l)?, id: id.parse().ok()?, qlen: q.parse().ok()?, blen: b.parse().ok()? })
+            Some(Spec { idx: idx.to_string(), kind: path.to_string(), cfg: l.to_string(), limit: lim(l)?, id: id.parse().ok()?, qlen: q.parse().ok()?, blen: b.parse().ok()? })
         }
         ["client", idx, kind, l, id, q, b] if *kind == "call" || *kind == "notify" => {
-            Some(Spec { idx: idx.to_string(), kind: kind.to_string(), limit: lim(l)?, id: id.parse().ok()?, qlen: q.parse().ok()?, blen: b.parse().ok()? })
+            Some(Spec { idx: idx.to_string(), kind: kind.to_string(), cfg: l.to_string(), limit: lim(l)?, id: id.parse().ok()?, qlen: q.parse().ok()?, blen: b.parse().ok()? })
         }
         _ => None,
     }
@@ -730,7 +811,7 @@ fn parse_spec(line: &str) -> Option<Spec> {
 fn main() {
     let args = Args::parse();
     let mut out = Out::new(&args.out);
-    out.rule = "per assumed peer limit {1 KiB, 4 KiB, 64 KiB, 1 MiB, none; thorough adds 16 MiB, 300, 100000} and per outbound path {inline response, off-reader response (custom erased handler), off-reader response (with_json_blocking), ctx.peer() notify from an inline and from an off-reader handler, three pushes in a row from one handler call with the sized one in the middle, PeerRegistry broadcast, proxy-forwarded response, client request, client notify}: frame sizes limit-2..limit+2 plus random sizes (small, below, just above, far above, near the limit), random split between query and body, handler-chosen (also very long) or echoed query, 1 in 4 handler answers an error response of its own, body buffers with and without spare capacity; each case is followed by one more request on the same connection. Distinct by op line; non-trivial = the guard fired (size > limit) or the size is within 2 of the limit".into();
+    out.rule = "per limits expression {default().with_assumed_peer_frame_limit(Some(1 KiB | 4 KiB | 64 KiB | 1 MiB)), …(None), WebSocketLimits::unlimited(), no limits given at all (WebSocketServer::new / proxy_connection / WebSocketClient::connect: frames at 16 MiB and 16 MiB + 1); thorough adds 16 MiB, 300, 100000; the 4 KiB and unlimited worlds are served through into_shared + SharedWebSocketServer::accept + serve_connection} and per outbound path {inline response, off-reader response (custom erased handler), off-reader response (with_json_blocking), ctx.peer() notify from an inline and from an off-reader handler, three pushes in a row from one handler call with the sized one in the middle, PeerRegistry broadcast, proxy-forwarded response, client request, client notify}: frame sizes limit-2..limit+2 plus random sizes (small, below, just above, far above, near the limit), random split between query and body, handler-chosen (also very long) or echoed query, 1 in 4 handler answers an error response of its own, body buffers with and without spare capacity; each case is followed by one more request on the same connection. Distinct by op line; non-trivial = the guard fired (size > limit) or the size is within 2 of the limit".into();
     let rt = tokio::runtime::Builder::new_multi_thread().worker_threads(4).enable_all().build().unwrap();
     let mut rng = Rng::new(args.seed);
     let specs: Vec<Spec> = match args.replay_ops() {
@@ -739,29 +820,29 @@ fn main() {
     };
     rt.block_on(async {
         let upstream = start_upstream().await;
-        let mut worlds: HashMap<Option<usize>, World> = HashMap::new();
+        let mut worlds: HashMap<String, World> = HashMap::new();
         let mut broken_cases = 0u32;
         for s in &specs {
-            if !worlds.contains_key(&s.limit) {
-                match make_world(s.limit, upstream).await {
+            if !worlds.contains_key(&s.cfg) {
+                match make_world(&s.cfg, upstream).await {
                     Ok(w) => {
-                        worlds.insert(s.limit, w);
+                        worlds.insert(s.cfg.clone(), w);
                     }
                     Err(e) => {
-                        out.oracle_fail("limits.setup", &format!("could not set the endpoints up for limit {}: {}", lim_str(s.limit), e), &[]);
+                        out.oracle_fail("limits.setup", &format!("could not set the endpoints up for limits `{}`: {}", s.cfg, e), &[]);
                         continue;
                     }
                 }
             }
-            let w = worlds.get_mut(&s.limit).unwrap();
-            let provisional = format!("{} {} {} {} {} {}", if s.kind == "call" || s.kind == "notify" { "client" } else { "frame" }, s.idx, s.kind, lim_str(s.limit), s.qlen, s.blen);
+            let w = worlds.get_mut(&s.cfg).unwrap();
+            let provisional = format!("{} {} {} {} {} {}", if s.kind == "call" || s.kind == "notify" { "client" } else { "frame" }, s.idx, s.kind, s.cfg, s.qlen, s.blen);
             out.begin(&provisional);
             let r = if s.kind == "call" || s.kind == "notify" { run_client(w, s).await } else { run_frame(w, s).await };
             let intended = 48 + s.qlen + s.blen;
             let over = s.limit.map(|l| intended > l).unwrap_or(false);
             let near = s.limit.map(|l| (intended as i64 - l as i64).abs() <= 2).unwrap_or(false);
             out.count(&format!("limits.path.{}", s.kind));
-            out.count(&format!("limits.limit.{}", lim_str(s.limit)));
+            out.count(&format!("limits.limit.{}", s.cfg));
             out.count(if over { "limits.size.over" } else if s.limit.is_some() { "limits.size.within" } else { "limits.size.no_limit" });
             if near {
                 out.count("limits.size.within2_of_limit");
@@ -772,7 +853,7 @@ fn main() {
                 out.oracle_fail(sig, detail, &[r.op.clone()]);
             }
             if r.broken {
-                worlds.remove(&s.limit);
+                worlds.remove(&s.cfg);
                 broken_cases += 1;
                 if broken_cases >= 3 {
                     // every further case would spend a watchdog period on a property that has already failed
